@@ -28,7 +28,7 @@ class CThread:
     __slots__ = (
         'tid', 'name', 'role', 'baton', 'pred', 'alive', 'wake_at', 'exc',
         'interruptible', 'kbi_at', 'what', 'os', 'fn', 'result', 'started',
-        'finished_step', 'waiting_on',
+        'finished_step', 'waiting_on', 'last_wait_blocked',
     )
 
     def __init__(self, tid, name, role, fn):
@@ -48,6 +48,7 @@ class CThread:
         self.started = False
         self.finished_step = None
         self.waiting_on = None
+        self.last_wait_blocked = None
 
     def __repr__(self):
         return f'<T{self.tid} {self.name} {self.what}>'
@@ -172,6 +173,7 @@ class Scheduler:
         self.step_hooks = []       # callables(sched) run at every point
         self.sleep_log = []        # (step, tid, duration)
         self.kbi_delivered = []    # (step, what) of harness-delivered Ctrl-C
+        self.unbilled = set()      # tids inside a signing / pre-flight read
         self.errors = []           # uncaught exceptions of controlled threads
 
     # -- thread management ---------------------------------------------
@@ -348,7 +350,8 @@ class Scheduler:
 
     def sleep(self, d):
         c = self.cur
-        self.sleep_log.append((self.step, c.tid, d))
+        self.sleep_log.append((self.step, c.tid, d, self.clock,
+                               c.tid in self.unbilled))
         if d is None or d <= 0:
             self.point(None, 'sleep0')
             return
@@ -459,7 +462,7 @@ class DEvent:
 
     def wait(self, timeout=None):
         s = self._s
-        s.last_wait_blocked = not self._flag
+        s.cur.last_wait_blocked = not self._flag
         if timeout is None:
             s.point(lambda: self._flag, 'event.wait', interruptible=True)
             return True
@@ -853,3 +856,129 @@ class LinePreempter:
             mon.free_tool_id(self.TOOL)
             mon.restart_events()
             self.active = False
+
+
+# --------------------------------------------------------------------------
+# inline (single-threaded) shim: any operation that would block raises
+# --------------------------------------------------------------------------
+class WouldBlock(Exception):
+    """A single-threaded history reached an operation that blocks forever."""
+
+
+class _ILock:
+    def __init__(self):
+        self._locked = False
+
+    def acquire(self, blocking=True, timeout=-1):
+        if self._locked:
+            if not blocking:
+                return False
+            raise WouldBlock('acquire of a held lock (self-deadlock)')
+        self._locked = True
+        return True
+
+    def release(self):
+        if not self._locked:
+            raise RuntimeError('release unlocked lock')
+        self._locked = False
+
+    def locked(self):
+        return self._locked
+
+    def __enter__(self):
+        self.acquire()
+        return True
+
+    def __exit__(self, *a):
+        self.release()
+
+
+class _IEvent:
+    def __init__(self):
+        self._flag = False
+
+    def is_set(self):
+        return self._flag
+
+    def set(self):
+        self._flag = True
+
+    def clear(self):
+        self._flag = False
+
+    def wait(self, timeout=None):
+        if not self._flag:
+            if timeout is None:
+                raise WouldBlock('wait on an event that is never set')
+            return False
+        return True
+
+
+class _ICondition:
+    def __init__(self, lock=None):
+        self._lock = lock if lock is not None else _ILock()
+        self.acquire = self._lock.acquire
+        self.release = self._lock.release
+
+    def __enter__(self):
+        return self._lock.__enter__()
+
+    def __exit__(self, *a):
+        return self._lock.__exit__(*a)
+
+    def wait(self, timeout=None):
+        if timeout is None:
+            raise WouldBlock('condition wait with nobody to notify')
+        return False
+
+    def notify(self, n=1):
+        pass
+
+    def notify_all(self):
+        pass
+
+
+class _ISemaphore:
+    def __init__(self, value=1):
+        self._value = value
+
+    def acquire(self, blocking=True, timeout=None):
+        if self._value <= 0:
+            if not blocking:
+                return False
+            raise WouldBlock('blocking acquire of an exhausted semaphore')
+        self._value -= 1
+        return True
+
+    def release(self, n=1):
+        self._value += n
+
+
+class InlineThreading:
+    Lock = staticmethod(lambda: _ILock())
+    RLock = staticmethod(lambda: _ILock())
+    Event = staticmethod(lambda: _IEvent())
+    Condition = staticmethod(lambda lock=None: _ICondition(lock))
+    Semaphore = staticmethod(lambda value=1: _ISemaphore(value))
+    BoundedSemaphore = Semaphore
+
+    def __getattr__(self, name):
+        return getattr(_rt, name)
+
+
+class inline_patched:
+    """Context manager: s3transfer.utils / futures use the inline shim."""
+
+    def __enter__(self):
+        import s3transfer.utils
+        import s3transfer.futures
+        self.mods = [s3transfer.utils, s3transfer.futures]
+        self.saved = [m.threading for m in self.mods]
+        shim = InlineThreading()
+        for m in self.mods:
+            m.threading = shim
+        return self
+
+    def __exit__(self, *a):
+        for m, t in zip(self.mods, self.saved):
+            m.threading = t
